@@ -2139,6 +2139,23 @@ void parse_table_row_into_cells(token * row) {
 }
 
 
+/// Forget a block that was registered for later processing (header, table,
+/// definition) when it turns out not to be one after all
+static void mmd_engine_forget_block(mmd_engine * e, token * t) {
+	stack * stacks[3] = { e->header_stack, e->table_stack, e->definition_stack };
+
+	for (int s = 0; s < 3; ++s) {
+		for (size_t i = 0; i < stacks[s]->size; ++i) {
+			if (stacks[s]->element[i] == t) {
+				memmove(&stacks[s]->element[i], &stacks[s]->element[i + 1], (stacks[s]->size - i - 1) * sizeof(void *));
+				stacks[s]->size--;
+				i--;
+			}
+		}
+	}
+}
+
+
 void strip_line_tokens_from_block(mmd_engine * e, token * block) {
 	if ((block == NULL) || (block->child == NULL)) {
 		return;
@@ -2284,6 +2301,9 @@ handle_line:
 
 				// Change to plain line
 				if (l->child) {
+					// (It may have been a block that is on one of the engine's
+					// stacks -- it will be freed with the other lines below)
+					mmd_engine_forget_block(e, l->child);
 					l->child->type = LINE_PLAIN;
 				}
 
